@@ -473,7 +473,7 @@ fn shape_class(s: &str) -> &'static str {
 
 const TERMS: [&str; 6] = ["popen", "join", "capture", "communicate", "stream_stdout", "stream_stdin"];
 const STDINS: [&str; 4] = ["inherit", "pipe", "data", "file"];
-const EARLIER: [&str; 5] = ["cat-like", "ignores-stdin-and-sleeps", "writes-a-lot", "writes-a-lot-to-stderr", "writes-forever-ignoring-errors"];
+const EARLIER: [&str; 6] = ["cat-like", "ignores-stdin-and-sleeps", "writes-a-lot", "writes-a-lot-to-stderr", "writes-forever-ignoring-errors", "stopped-for-a-while-then-exits"];
 
 fn c14_case(ctx: &mut Ctx, n: usize, kfail: usize, stdin_kind: &str, term: &str, earlier: &str, detached: bool, via_clone: bool) {
     // which combinations exist
@@ -528,6 +528,8 @@ fn c14_case(ctx: &mut Ctx, n: usize, kfail: usize, stdin_kind: &str, term: &str,
                 "cat-like" => stage_exec(ctx, j, &Stage { a: 1, b: 0, nerr: 0, linger: 0, code: 0, take: 0, close_err: false }, &dir),
                 // detached: it outlives the attempt by far, so whoever waits for it is seen to have waited
                 "ignores-stdin-and-sleeps" => Exec::cmd(&ctx.vchild).args(&["io", "1", if detached { "s3000,x0" } else { "s30,x0" }]).arg(dir.join(format!("io{}.rep", j))),
+                // job control: stopped (not terminated) when the clean-up waits for it, continued a little later, then exits
+                "stopped-for-a-while-then-exits" => Exec::cmd(&ctx.vchild).args(&["io", "1", "T120,x0"]).arg(dir.join(format!("io{}.rep", j))),
                 "writes-a-lot" => Exec::cmd(&ctx.vchild).args(&["io", "1", "w1:400000:4096,x0"]).arg(dir.join(format!("io{}.rep", j))),
                 // `while :; do echo; done`: survives EPIPE, so that only SIGPIPE (default action, not blocked) ends it once its reader is gone
                 "writes-forever-ignoring-errors" => Exec::cmd(&ctx.vchild).args(&["io", "1", "Z1"]).arg(dir.join(format!("io{}.rep", j))),
@@ -585,6 +587,10 @@ fn c14_case(ctx: &mut Ctx, n: usize, kfail: usize, stdin_kind: &str, term: &str,
         }
         ctx.count("attempts_from_a_thread_with_SIGPIPE_blocked", 1);
     }
+    // the caller has exit-time work registered (atexit); in one case of three it cannot finish in a forked copy of the
+    // caller (it needs a lock whose owner is another thread)
+    let handler_blocks = (n + 2 * kfail + term.len() + earlier.len()) % 3 == 0;
+    ilog::EXIT_HANDLER_BLOCKS.store(handler_blocks, std::sync::atomic::Ordering::SeqCst);
     let m = run::monitored(|| -> Result<String, PopenError> {
         match term {
             "popen" => pl.popen().map(|v| format!("{} commands started", v.len())),
@@ -595,6 +601,7 @@ fn c14_case(ctx: &mut Ctx, n: usize, kfail: usize, stdin_kind: &str, term: &str,
             _ => pl.stream_stdin().map(|_| "writer".into()),
         }
     });
+    ilog::EXIT_HANDLER_BLOCKS.store(false, std::sync::atomic::Ordering::SeqCst);
     if caller_blocks_sigpipe {
         unsafe { libc::pthread_sigmask(libc::SIG_SETMASK, &old_mask, std::ptr::null_mut()) };
     }
@@ -607,6 +614,16 @@ fn c14_case(ctx: &mut Ctx, n: usize, kfail: usize, stdin_kind: &str, term: &str,
     ctx.count("tuples_run", 1);
     ctx.distinct(&tag);
     let w = |extra: J| J::obj().set("case", J::s(&tag)).set("result", J::s(&format!("{:?}", m.result.as_ref().map(|r| r.as_ref().map_err(|e| e.to_string()))))).set("events_tail", J::arr_s(&ilog::fmt_tail(&evs.iter().filter(|e| e.kind != k::READ && e.kind != k::WRITE && e.kind != k::FCNTL).cloned().collect::<Vec<_>>(), 30))).set("detail", extra);
+    ctx.count("attempts_in_a_caller_with_exit_handlers", 1);
+    if ilog::child_exit_handlers() > 0 {
+        ctx.violation(
+            &format!("C14/forked-child-runs-the-callers-exit-handlers/{}", term),
+            "the child forked for the command that cannot be started left through exit(): a copy of the caller, with every descriptor of the attempt, ran the caller's exit-time handlers; where such a handler cannot finish in a copy, the copy stays and the call that waits for it never returns",
+            w(J::obj().set("handler_blocks_in_a_copy", J::Bool(handler_blocks)).set("certificate", m.cert.as_ref().map(run::cert_json).unwrap_or(J::Null))),
+        );
+        run::end_case();
+        return;
+    }
     if let Some(c) = &m.cert {
         ctx.violation(
             &format!("C14/hang/{}/stdin-{}/{}", term, stdin_kind, if kfail == 0 { "k0" } else { "k>0" }),
